@@ -1,6 +1,7 @@
 import OomdProofs.EngineC06
 import OomdProofs.EngineRun
 import OomdProps.C02
+import OomdProofs.DropInState
 
 /-!
 # C06 — Async continuation
@@ -151,5 +152,50 @@ example :
     let sc : Script := fun i => if i = 0 then { ret := .stop } else {}
     (rsRun true cfg sc { active := some (1, c) } 1000 8).2.1 =
       [Ev.det 0 1000, Ev.act 2 1000 c true, Ev.act 3 1000 c true] := by decide
+
+/-! ### suspended chains and drop-ins
+
+With drop-ins (`OomdModel.DropIn`, C13's model of `Engine` + `DropInServiceAdaptor`) a base ruleset can be disabled for any
+number of ticks while one of its chains is suspended.  The suspended chain is part of the ruleset's run state; the theorems
+below show that this state is changed by nothing but the ruleset's own `runOnceImpl` - so when the drop-in goes away the
+resumption theorems above apply to exactly the chain that was suspended.  The real engine is held to this by the
+`dropinsusp` pass of this check (h_dropin, clause `C06.suspended_chain_resumes`), including ruleset-cgroup bases, whose
+per-cgroup instance holds the chain. -/
+
+open OomdModel.DropIn in
+/-- **Drop-in operations never touch a base ruleset's run state**: adding, re-adding or removing any tag - accepted or refused -
+leaves every base ruleset's configuration, pause deadline, override flag and suspended chain as they were. -/
+theorem dropin_ops_keep_base_state (env : Env) (w : OomdModel.DropIn.World) (op : Op) (hop : ∀ ti, op ≠ .tick ti) :
+    baseStates (step env w op).1.eng = baseStates w.eng := by
+  cases op with
+  | add tag d =>
+    simp only [step]
+    cases compileDropIn env.reg env.root d with
+    | none => rfl
+    | some u => exact updateDropIn_states tag (some u) w.eng
+  | remove tag => exact updateDropIn_states tag none w.eng
+  | tick ti => exact absurd rfl (hop ti)
+
+open OomdModel.DropIn in
+/-- **A tick changes a base ruleset's run state only by that ruleset's own `runOnceImpl`.**  The base ruleset at position `k`
+keeps its state on a tick on which it is disabled (it does not run at all - `C13.enabled_iff` says when that is); on a tick
+on which it is enabled its state moves by `rsRun` from its own previous state, which is what `resumes_same_action_same_ctx`
+and `resumes_next_tick` speak about.  No other ruleset and no drop-in copy writes to it. -/
+theorem base_state_only_changes_by_its_own_run (env : Env) (w : OomdModel.DropIn.World) (ti : TickIn) (k : Nat) (b : BaseRs)
+    (hk : w.eng.rulesets[k]? = some b) :
+    ∃ b', (step env w (.tick ti)).1.eng.rulesets[k]? = some b' ∧ b'.rs.cfg = b.rs.cfg ∧
+      ((b.rs.enabled = false ∧ b'.rs.st = b.rs.st) ∨
+       (b.rs.enabled = true ∧ ∃ now' ctr', b'.rs.st = (rsRun env.inv b.rs.cfg ti.sc b.rs.st now' ctr').1)) := by
+  simp only [step]
+  exact runBases_state env.inv ti.sc w.eng.rulesets (w.now + ti.gap) w.ctr k b hk
+
+/-- non-vacuity: a disabled base with a suspended chain keeps it over a tick -/
+example :
+    let cfg : RsCfg := { rid := 0, groups := [{ gid := 0, dets := [0] }], actions := [1, 2], delay := 15, hookTimeout := 5 }
+    let c : Ctx := { ruleset := 0, group := 0, uuid := 7, deadline := 99 }
+    let b : OomdModel.DropIn.BaseRs :=
+      { rs := { cfg := cfg, perm := { disable := true, dg := true, act := true }, st := { active := some (1, c) },
+                enabled := false, numTargeted := 1 }, dropins := [] }
+    ((OomdModel.DropIn.runBases true (fun _ => {}) [b] 1000 0).1.map (·.rs.st.active)) = [some (1, c)] := by decide
 
 end C06
